@@ -196,6 +196,49 @@ PROPS["C13"] = {
 }
 
 
+DLV_STREAM = {"name": "DLV", "quick": 400, "thorough": 6000, "profiles": ["debug"], "augment": True,
+              "nontrivial": lambda c, o: nontrivial_enc(c, o) and not c.split(" ")[2].endswith("s"), "memlimit_kb": 8000000}
+DLV_RULE = (" DLV: the ENC generator with delivery variants: integer vs packed-byte fill, with/without length hint, "
+            "single-threaded vs multi-threaded with 1..16 workers from the configuration or from FLACENC_WORKERS; the "
+            "model (which has no notion of delivery or threads) must produce the same bytes. Non-trivial = multi-threaded "
+            "and at least one Fixed/LPC subframe.")
+
+PROPS["C01"] = {
+    "coq": "theories/Props/C01.v",
+    "theorems": ["C01_subframe_lossless", "C01_frame_lossless", "C01_zigzag_inverse", "C01_fixed_predictors", "C01_midside"],
+    "streams": "ENC+DLV", "rule": "ENC+DLV",
+    "oracle": lambda pid, res, driver: enc_oracle(pid, res, driver) + enc_oracle(pid, res, driver, "DLV"),
+    "assumptions": ["PARTIAL: theorems cover the meaning of the emitted components (predictors, residual coding, stereo); the bit-level "
+                    "parse of the emitted bytes is decided per run by the extracted independent decoder on the implementation's output",
+                    "named hypothesis lpc_fits (LPC residuals representable in i32) - evaluated by the model on every case",
+                    "a panic inside the floating-point estimators cannot be exhibited by the model (monitored only)"],
+}
+PROPS["C02"] = {
+    "coq": "theories/Props/C02.v",
+    "theorems": ["C02_block_size_codes", "C02_sample_rate_codes", "C02_number_roundtrip", "C02_number_defined"],
+    "streams": "ENC+CNT", "rule": "ENC+CNT",
+    "oracle": lambda pid, res, driver: enc_oracle(pid, res, driver),
+    "assumptions": ["whole-stream strictness (sync, reserved bits, CRCs, padding, subframe limits, frame numbering, consistency with "
+                    "STREAMINFO) is decided per run by the extracted strict validator on the implementation's bytes",
+                    "code tables come from the compiled crate (GenTables.v), so the sweeps range over the implementation's outputs"],
+}
+PROPS["C03"] = {
+    "coq": "theories/Props/C03.v",
+    "theorems": ["C03_streaminfo_true", "C03_md5_split_independent"],
+    "streams": "ENC+DLV", "rule": "ENC+DLV",
+    "oracle": lambda pid, res, driver: enc_oracle(pid, res, driver) + enc_oracle(pid, res, driver, "DLV"),
+    "assumptions": ["MD5 is an oracle (any function of the byte string); the md-5 crate's chunked update is assumed to equal one update "
+                    "of the concatenation", "the oracle recomputes MD5 and the count from the raw input with Python's hashlib"],
+}
+PROPS["C04"] = {
+    "coq": "theories/Props/C04.v",
+    "theorems": ["C04_bounds_exact"],
+    "streams": "ENC+DLV", "rule": "ENC+DLV",
+    "oracle": lambda pid, res, driver: enc_oracle(pid, res, driver) + enc_oracle(pid, res, driver, "DLV"),
+    "assumptions": ["frame_size_field = count_bits/8; that this is the emitted byte length is property C08"],
+}
+
+
 def check_coq(pid, spec, res):
     """Build the proofs; returns True when the property's theorems are all checked."""
     closure = fv.dep_closure(spec["coq"])
@@ -296,6 +339,14 @@ def run_check(pid, spec, tier, seed, replay):
         spec["streams"] = [dict(ENC_STREAM)]
     if spec.get("streams") == "ENC+CNT":
         spec["streams"] = [dict(ENC_STREAM), dict(CNT_STREAM)]
+    if spec.get("streams") == "ENC+DLV":
+        spec["streams"] = [dict(ENC_STREAM), dict(DLV_STREAM)]
+    if spec.get("streams") == "DLV":
+        spec["streams"] = [dict(DLV_STREAM)]
+    if spec.get("rule") == "ENC+DLV":
+        spec["rule"] = ENC_RULE + DLV_RULE
+    if spec.get("rule") == "DLV":
+        spec["rule"] = DLV_RULE
     if spec.get("rule") == "ENC":
         spec["rule"] = ENC_RULE
     if spec.get("rule") == "ENC+CNT":
@@ -383,6 +434,8 @@ import hashlib
 
 def parse_enc_case(c):
     t = c.split(" | ")[0].split(" ")
+    if t[0] == "DLV":
+        t = t[:2] + t[3:]
     cfg = dict(kv.split("=") for kv in t[2].split(";"))
     samples = [] if t[7] == "-" else [int(x) for x in t[7].split(",")]
     return {"id": t[1], "cfg": cfg, "rate": int(t[3]), "ch": int(t[4]), "bps": int(t[5]), "bs": int(t[6]), "samples": samples}
